@@ -344,7 +344,7 @@ func TestC09(t *testing.T) {
 	})
 
 	// 3. a sample of table rows through a real connection
-	rec.Suite("via-connection", rec.N(200, 60000), func(c *ev.Case) {
+	rec.Suite("via-connection", rec.N(200, 300000), func(c *ev.Case) {
 		subset := c.R.IntN(1 << nKeys)
 		m := msgs[c.R.IntN(len(msgs))]
 		mux := diam.NewServeMux()
@@ -394,7 +394,7 @@ func TestC09(t *testing.T) {
 
 	// 4. concurrent re-registration and dispatch, checked for linearizability
 	//    against "three slots + decision function"
-	n := rec.N(200, 300000)
+	n := rec.N(200, 3000000)
 	rec.Suite("concurrent-histories", n, func(c *ev.Case) { c09History(c, mk, rec) })
 }
 
